@@ -228,10 +228,8 @@ func (f *filler) fill(v reflect.Value, nonzero bool, depth int) {
 		v.SetUint(uint64(f.enumMember(t, nonzero)))
 	case reflect.Float64:
 		x := verifrt.U64()
-		// finite or not does not matter to the codec; exclude NaN payloads (NaN != NaN) and, when the field
-		// must be present, both zeros
-		exp := (x >> 52) & 0x7ff
-		verifrt.Assume(exp != 0x7ff)
+		// every bit pattern, infinities and NaN payloads included (values are compared as bit patterns); when
+		// the field must be present, both zeros are excluded
 		if nonzero {
 			verifrt.Assume(x<<1 != 0)
 		}
@@ -248,7 +246,7 @@ func (f *filler) fill(v reflect.Value, nonzero bool, depth int) {
 			v.SetBytes(b)
 			return
 		}
-		n := f.nextLen(3, nonzero)
+		n := f.nextLen(4, nonzero) // vectors of 0..3 elements
 		if depth < -1 && !nonzero {
 			n = 0 // recursion cut-off (recursive schema types)
 		}
